@@ -41,12 +41,35 @@ type invocation struct {
 	Shape [][]string `json:"shape"`
 	Up    string     `json:"up"`
 	Late  int        `json:"late"`
+	// Big > 0: a very large request to the ingestion endpoint is under way while the runtime-done signal arrives; it was started
+	// Big percent of its own (measured) duration earlier, so that its merge into the consolidator overlaps the flush
+	Big int `json:"big"`
 }
 
 type scase struct {
 	Fault string       `json:"fault"`
 	Invs  []invocation `json:"invs"`
 	Init  int          `json:"init"` // datapoints accepted during the init phase
+	// SlowStart: the server's own start-up (sockets, transports, the forwarder and its consolidator) begins this many ms after the
+	// extension was started: a cold start on a throttled sandbox.  SlowSub: the runtime takes this long to answer the telemetry subscription.
+	Slots     int `json:"slots"` // http-transport.consolidator-slots (0 = default)
+	SlowStart int `json:"slowstart"`
+	SlowSub   int `json:"slowsub"`
+}
+
+// delayed is a server whose start-up begins late
+type delayed struct {
+	srv interface{ Run(context.Context) error }
+	d   time.Duration
+}
+
+func (s delayed) Run(ctx context.Context) error {
+	select {
+	case <-time.After(s.d):
+	case <-ctx.Done():
+		return ctx.Err()
+	}
+	return s.srv.Run(ctx)
 }
 
 // evlog orders the observations of one extension instance
@@ -71,6 +94,7 @@ type world struct {
 	mu            sync.Mutex
 	mode          string        // what the upstream does with requests that carry datapoints
 	tries         int           // attempts seen in this mode
+	subDelay      time.Duration // the runtime takes this long to answer the telemetry subscription
 	holdSubscribe chan struct{} // non-nil: the runtime answers the telemetry subscription only when this is closed (a long init phase)
 }
 
@@ -88,6 +112,9 @@ func (w *world) runtimeAPI() http.Handler {
 	})
 	mux.HandleFunc("/2022-07-01/telemetry", func(rw http.ResponseWriter, r *http.Request) {
 		w.log.emit("subscribe")
+		if w.subDelay > 0 {
+			time.Sleep(w.subDelay)
+		}
 		if w.holdSubscribe != nil {
 			select {
 			case <-w.holdSubscribe:
@@ -211,6 +238,23 @@ var stubFaults = map[string]failing{
 
 var errMachinery = fmt.Errorf("machinery")
 
+var (
+	bigOnce sync.Once
+	bigBuf  []byte
+)
+
+// bigBody is a raw message of 150 000 counters whose names the fake upstream does not track
+func bigBody() []byte {
+	bigOnce.Do(func() {
+		msg := &pb.RawMessageV2{Counters: map[string]*pb.CounterTagV2{}}
+		for i := 0; i < 150000; i++ {
+			msg.Counters[fmt.Sprintf("big.%d", i)] = &pb.CounterTagV2{TagMap: map[string]*pb.RawCounterV2{"": {Value: 1}}}
+		}
+		bigBuf, _ = proto.Marshal(msg)
+	})
+	return bigBuf
+}
+
 // runCase returns the observations, or errMachinery when the environment (ports) got in the way
 func runCase(c *scase, idx int) ([]map[string]any, error) {
 	w := &world{log: &evlog{}, nextCh: make(chan chan string, 4), mode: "ok"}
@@ -232,6 +276,9 @@ func runCase(c *scase, idx int) ([]map[string]any, error) {
 	v.Set("http.ingest.address", ingest)
 	v.Set("http.ingest.enable-ingestion", true)
 	v.Set("http.ingest.enable-healthcheck", false)
+	if c.Slots > 0 {
+		v.Set("http-transport.consolidator-slots", c.Slots)
+	}
 	srv := &statsd.Server{FlushInterval: 200 * time.Millisecond, MaxReaders: 1, MaxParsers: 1, MetricsAddr: "127.0.0.1:0", ReceiveBatchSize: 1,
 		ServerMode: "forwarder", DisableInternalEvents: true, Viper: v, TransportPool: transport.NewTransportPool(logger, v)}
 	switch c.Fault {
@@ -245,7 +292,14 @@ func runCase(c *scase, idx int) ([]map[string]any, error) {
 	}
 	var ext interface{ Run(context.Context) error }
 	var err error
-	if stub, ok := stubFaults[c.Fault]; ok {
+	w.subDelay = time.Duration(c.SlowSub) * time.Millisecond
+	if c.SlowStart > 0 {
+		// the same wiring as lambda.NewExtension (one coordinator shared by the server's forwarder and the manager), around a server
+		// whose start-up begins late
+		fc := verifhooks.NewFlushCoordinator()
+		srv.ForwarderFlushCoordinator = fc
+		ext = verifhooks.NewLambdaManager(strings.TrimPrefix(rt.URL, "http://"), "gostatsd-ext", logger, delayed{srv, time.Duration(c.SlowStart) * time.Millisecond}, fc, tele)
+	} else if stub, ok := stubFaults[c.Fault]; ok {
 		// the manager around a server that fails in a way the real server's configuration cannot be made to: the manager accepts any
 		// server (extension.Server), and whatever makes its Run return during start-up is a start-up failure
 		ext = verifhooks.NewLambdaManager(strings.TrimPrefix(rt.URL, "http://"), "gostatsd-ext", logger, stub, verifhooks.NewFlushCoordinator(), tele)
@@ -329,6 +383,7 @@ func runCase(c *scase, idx int) ([]map[string]any, error) {
 		w.log.emit("init_mark")
 		close(w.holdSubscribe)
 	}
+	var tbig time.Duration
 	for i, inv := range c.Invs {
 		reply := waitNext()
 		if reply == nil {
@@ -347,6 +402,7 @@ func runCase(c *scase, idx int) ([]map[string]any, error) {
 		w.mu.Lock()
 		w.mode, w.tries = inv.Up, 0
 		w.mu.Unlock()
+		var bigDone chan struct{}
 		for _, batch := range inv.Shape {
 			var recs []map[string]any
 			hasDone := false
@@ -355,6 +411,22 @@ func runCase(c *scase, idx int) ([]map[string]any, error) {
 				hasDone = hasDone || r == "done"
 			}
 			body, _ := json.Marshal(recs)
+			if hasDone && inv.Big > 0 {
+				postBig := func() {
+					if resp, err := client.Post("http://"+ingest+"/v2/raw", "application/x-protobuf", bytes.NewReader(bigBody())); err == nil {
+						io.Copy(io.Discard, resp.Body)
+						resp.Body.Close()
+					}
+				}
+				if tbig == 0 { // once per history: how long such a request takes here
+					t0 := time.Now()
+					postBig()
+					tbig = time.Since(t0)
+				}
+				bigDone = make(chan struct{})
+				go func() { defer close(bigDone); postBig() }()
+				time.Sleep(tbig * time.Duration(inv.Big) / 100)
+			}
 			if hasDone {
 				w.log.emit("runtime_done")
 			}
@@ -366,6 +438,10 @@ func runCase(c *scase, idx int) ([]map[string]any, error) {
 			io.Copy(io.Discard, resp.Body)
 			resp.Body.Close()
 			time.Sleep(20 * time.Millisecond)
+			if bigDone != nil {
+				<-bigDone
+				bigDone = nil
+			}
 			if hasDone {
 				for k := 0; k < inv.Late; k++ {
 					d := fmt.Sprintf("dp.%d.%d.late%d", idx, i, k)
